@@ -21,7 +21,17 @@ CACHE = os.environ.get('NV_CACHE') or os.path.join(VERIF, '.cache')
 # used by the sources; -iquote keeps <getopt.h> pointing at the system header as in the real
 # build of ninja.cc, which has no -I); ninja.cc / browse.cc get -DNINJA_HAVE_BROWSE and the
 # generated build/browse_py.h (stubbed: its content is a string constant).
-FLAGS = ['-std=gnu++17', '-DUSE_PPOLL=1', '-DNDEBUG', '-DNINJA_HAVE_BROWSE', '-DNINJA_PYTHON="python"', '-iquote', SRC,
+# NV_CONFIG selects the preprocessor configuration that is analysed (thorough tier runs all):
+#   release  -DNDEBUG -DUSE_PPOLL=1   (what cmake's Release build compiles; the default)
+#   debug    asserts compiled in      (cmake's Debug build)
+#   pselect  -DNDEBUG, no USE_PPOLL   (the pselect() variant of SubprocessSet::DoWork)
+CONFIGS = {
+    'release': ['-DUSE_PPOLL=1', '-DNDEBUG'],
+    'debug': ['-DUSE_PPOLL=1', '-UNDEBUG'],
+    'pselect': ['-DNDEBUG'],
+}
+CONFIG = os.environ.get('NV_CONFIG', 'release')
+FLAGS = ['-std=gnu++17'] + CONFIGS[CONFIG] + ['-DNINJA_HAVE_BROWSE', '-DNINJA_PYTHON="python"', '-iquote', SRC,
          '-iquote', os.path.join(VERIF, 'stubs'), '-I' + os.path.join(VERIF, 'stubs'),
          '-Wno-everything']
 
